@@ -45,6 +45,14 @@ theorem C13_agree_partial (fx : Bool) (a : Addr) :
       refParse (ntop a 40).1 = some r.addr :=
   ⟨_, ntop_pton fx a, rfl, ntop_ref a⟩
 
+/-- **C13 (a plain address is its own /128)**: for every address, the text the daemon prints
+    for it, given to the parser as a netmask text (`bits != NULL`, the class rules' `address`
+    criterion), yields that address (canonical form) with prefix length 128 — so such a rule
+    matches exactly that address (`C13_mask` with n = 128). -/
+theorem C13_plain_is_128 (fx : Bool) (a : Addr) :
+    ptonWith fx (ntop a 40).1 true false = .ok ⟨(ntop a 40).1.length, canon a, some 128, false⟩ :=
+  ntop_pton_wb fx a true
+
 /-- **C13 (documented netmask texts)** — *partial*: three of the documented forms are
     theorems for all their instances: `*…`, `a.b.c.d/n` (n ≤ 32), `a.b.*`.
     Not proved (judge only): `a.*`, `a.b.c.*`, partial quads `a.b/n`, the IPv6 forms
